@@ -34,6 +34,7 @@ import (
 	"github.com/logrange/logrange/pkg/cursor"
 	"github.com/logrange/logrange/pkg/lql"
 	"github.com/logrange/logrange/pkg/model"
+	"github.com/logrange/logrange/pkg/model/field"
 	"github.com/logrange/logrange/pkg/model/tag"
 	"github.com/logrange/range/pkg/records"
 	"github.com/logrange/range/pkg/records/journal"
@@ -1589,6 +1590,7 @@ func runSystemCase(srv *lrsrv.Srv, c systemCase, sec *vh.Section, limit int) (ps
 	tagsOf := make([]string, c.N)
 	lineToPart := map[string]int{}
 	written := map[int][]ev{}
+	wantFields := map[int]string{}
 	total := 0
 	for i := 0; i < c.N; i++ {
 		tagsOf[i] = fmt.Sprintf("grp=%s,p=%d", grp, i)
@@ -1599,8 +1601,15 @@ func runSystemCase(srv *lrsrv.Srv, c systemCase, sec *vh.Section, limit int) (ps
 		lineToPart[string(ts.Line())] = i
 		les := make([]model.LogEvent, len(c.Parts[i]))
 		written[i] = []ev{}
+		// every second partition is written WITH fields, the others without: in the merged stream fielded and unfielded events
+		// interleave, and every event must come back with the fields text of its own record (read alone: its partition's)
+		var flds field.Fields
+		if i%2 == 1 {
+			flds, _ = field.NewFieldsFromSlice("f", fmt.Sprintf("p%d", i))
+			wantFields[i] = flds.AsKVString()
+		}
 		for k, t := range c.Parts[i] {
-			les[k] = model.LogEvent{Timestamp: t, Msg: []byte(fmt.Sprintf("%d-%d", i, k))}
+			les[k] = model.LogEvent{Timestamp: t, Msg: []byte(fmt.Sprintf("%d-%d", i, k)), Fields: flds}
 			written[i] = append(written[i], ev{t, i*1000 + k, i})
 		}
 		total += len(les)
@@ -1656,6 +1665,23 @@ func runSystemCase(srv *lrsrv.Srv, c systemCase, sec *vh.Section, limit int) (ps
 			got, err = readBackward(srv, q, lineToPart, total+2)
 		} else {
 			got, err = readForward(srv, q, lineToPart)
+			// the fields text of every event of the merged answer is the one of its own partition (both Query functions keep a
+			// one-entry cache of the last fields converted: it must be refreshed on EVERY difference, also to "no fields")
+			checkFields := func(evs []*api.LogEvent, via string) {
+				for k, e := range evs {
+					p, ok := lineToPart[e.Tags]
+					if ok && e.Fields != wantFields[p] {
+						res.SpecFail(vh.SpecFailure{Section: "system", Kind: "wrong-fields", Input: c, Impl: fmt.Sprintf("event %d (%d, %q, partition %d): fields %q", k, e.Timestamp, e.Message, p, e.Fields), Spec: fmt.Sprintf("fields %q", wantFields[p]),
+							What: fmt.Sprintf("merged read %s over %d partitions (odd ones written with fields, even ones without): an event does not carry the fields text of its own record, which reading its partition alone returns", via, c.N)})
+						break
+					}
+				}
+			}
+			if err == nil {
+				if rb, eb := srv.Querier.Query(ctx, &api.QueryRequest{Query: q, Limit: 10000}); (eb == nil || eb == io.EOF) && rb != nil {
+					checkFields(rb.Events, "through backend.Querier")
+				}
+			}
 			// the same read through the RPC encoder/decoder (api/rpc: queryResultBuilder.writeLogEvent, unmarshalQueryResult): every
 			// event must arrive with the same timestamp, payload and TAG LINE as in the in-process answer
 			if err == nil && srv.Client != nil {
@@ -1666,6 +1692,7 @@ func runSystemCase(srv *lrsrv.Srv, c systemCase, sec *vh.Section, limit int) (ps
 						viaRPC = append(viaRPC, sysEv(e.Timestamp, e.Message, e.Tags, lineToPart))
 					}
 					res.Dist(sec, "rpc-read")
+					checkFields(qr.Events, "through the RPC server (api/rpc ServerQuerier.query)")
 					if evsString(viaRPC) != evsString(got) {
 						res.SpecFail(vh.SpecFailure{Section: "system", Kind: "wrong-attribution", Input: c, Impl: evsString(viaRPC), Spec: evsString(got),
 							What: "the merged read through the RPC client differs from the in-process answer of the same query (events or their tag lines)"})
